@@ -3,7 +3,7 @@
 //! classification. Every candidate runs in a fresh child process through the
 //! contract sanitiser, so a shrunk trace can never leave the preconditions.
 
-use crate::child::{exec_trace_in_child, ChildOutcome};
+use crate::child::{exec_trace_in_child_wd, ChildOutcome};
 use crate::op::{Failure, Op, Step};
 use crate::runner::Trace;
 use std::time::{Duration, Instant};
@@ -31,7 +31,7 @@ impl Sh {
             return false;
         }
         self.cands += 1;
-        let res = exec_trace_in_child(cand, self.limit);
+        let res = exec_trace_in_child_wd(cand, self.limit, 8);
         if std::env::var("VERIF_DEBUG_SHRINK").is_ok() {
             eprintln!("shrink cand {} steps={} -> {:?}", self.cands, cand.steps.len(), match &res { ChildOutcome::Fail(f, st) => format!("FAIL {} ({} steps)", f.sig(), st.len()), o => format!("{:?}", o) });
         }
